@@ -1023,7 +1023,12 @@ func accessibleFrom(info *types.Info, node ast.Node, wantPkg string) error {
 		if lit, ok := node.(*ast.CompositeLit); ok && len(lit.Elts) > 0 {
 			if _, keyed := lit.Elts[0].(*ast.KeyValueExpr); !keyed {
 				if tv, ok := info.Types[lit]; ok && tv.Type != nil {
-					if st, ok := tv.Type.Underlying().(*types.Struct); ok {
+					t := tv.Type
+					if p, ok := t.Underlying().(*types.Pointer); ok {
+						// An element literal with elided type &T{...}.
+						t = p.Elem()
+					}
+					if st, ok := t.Underlying().(*types.Struct); ok {
 						// An unkeyed literal assigns every field, the unexported ones included.
 						for i := 0; i < st.NumFields(); i++ {
 							if f := st.Field(i); !f.Exported() && f.Pkg() != nil && f.Pkg().Path() != wantPkg {
